@@ -35,7 +35,9 @@ REQUIRED_MONITORS = ["facet-closure", "element-closure", "vertex-closure", "spel
                      "by-kind-dicts", "skip-keep-drop-consistent", "boundary-default", "complement",
                      "trace-independent-of-complement", "returned-dofs-control-trace"]
 REQUIRED_REACH = ["3d-edge-dofs", "composite-edge-and-facet", "interior-facets-selected", "spelling:predicate",
-                  "spelling:name", "spelling:collection", "filter:all-name", "filter:skip"]
+                  "spelling:name", "spelling:collection", "filter:all-name", "filter:skip", "empty-selections",
+                  "python-int-collections", "predicate-tags-and-oriented-selector", "large-coordinate-offset",
+                  "filter:empty-name-list"]
 
 
 def entity_maps(mesh, elem, kind, dim):
@@ -312,6 +314,72 @@ def one_case(ctx, k, kind):
     g = basis.get_dofs(nodes=tuple(float(x) for x in P[:, V[0]]))
     ctx.check("spellings-agree", set(g.flatten().tolist()) == ent2dofs.get(("v", int(V[0])), set()),
               mech="spelling:nodes:point-tuple", **tag)
+
+    # ---- (1b) degenerate and plain-Python spellings
+    def tolerated(call, exc):
+        try:
+            return call(), None
+        except exc as e_:
+            return None, e_
+    emptyi = np.array([], dtype=np.int32)
+    for what, kwname, universe_pred in (("facets", None, lambda x: x[0] > 1e30), ("elements", "elements", lambda x: x[0] > 1e30),
+                                         ("nodes", "nodes", lambda x: x[0] > 1e30)):
+        for nm, val in (("empty-array", emptyi), ("predicate-matching-nothing", universe_pred)):
+            g = basis.get_dofs(val) if kwname is None else basis.get_dofs(**{kwname: val})
+            ctx.check("spellings-agree", g.flatten().size == 0, mech=f"empty-selection-not-empty:{what}:{nm}",
+                      returned=int(g.flatten().size), **tag)
+    m0 = mesh.with_boundaries({"nothing": emptyi}).with_subdomains({"nocell": emptyi})
+    b0_ = skfem.CellBasis(m0, rec.make())
+    ctx.check("spellings-agree", b0_.get_dofs("nothing").flatten().size == 0 and
+              b0_.get_dofs(elements="nocell").flatten().size == 0, mech="empty-tag-not-empty", **tag)
+    ctx.reached("empty-selections")
+    f0 = int(F[0])
+    for nm, val, ref_ in (("int-zero", 0, closure_facets([0])), ("int", f0, closure_facets([f0]))):
+        ctx.check("spellings-agree", set(basis.get_dofs(val).flatten().tolist()) == ref_, mech=f"spelling:facets:{nm}", **tag)
+    e0 = int(E[0])
+    for nm, val in (("int-zero", 0), ("int", e0)):
+        g, ex_ = tolerated(lambda: basis.get_dofs(elements=val), (NotImplementedError, TypeError))
+        if ex_ is None:
+            ctx.check("spellings-agree", set(g.flatten().tolist()) == {int(x) for x in ed[:, [val]].ravel()},
+                      mech=f"spelling:elements:{nm}", **tag)
+        else:
+            ctx.drop("spelling-rejected:elements:int")
+    # plain Python collections of ints, unsorted and with a repeated entry
+    Fl = [int(x) for x in F[rng.permutation(F.size)]] + [int(F[0])]
+    for nm, val in (("list-of-ints", Fl), ("tuple-of-ints", tuple(Fl)), ("set-of-ints", set(Fl))):
+        g, ex_ = tolerated(lambda: basis.get_dofs(val), (NotImplementedError, TypeError, ValueError))
+        if ex_ is None:
+            ctx.check("spellings-agree", set(g.flatten().tolist()) == want, mech=f"spelling:facets:{nm}", **tag)
+        else:
+            ctx.drop(f"spelling-rejected:facets:{nm}")
+    El = [int(x) for x in E[rng.permutation(E.size)]] + [int(E[0])]
+    for nm, val in (("list-of-ints", El), ("set-of-ints", set(El))):
+        g, ex_ = tolerated(lambda: basis.get_dofs(elements=val), (NotImplementedError, TypeError, ValueError))
+        if ex_ is None:
+            ctx.check("spellings-agree", set(g.flatten().tolist()) == wantE, mech=f"spelling:elements:{nm}", **tag)
+        else:
+            ctx.drop(f"spelling-rejected:elements:{nm}")
+    ctx.reached("python-int-collections")
+    # tags defined by predicates; the oriented facet set around a cell set
+    mp = mesh.with_boundaries({"predtag": pred}, boundaries_only=False).with_subdomains({"predsub": midpoint_predicate(cm[:, E], h)})
+    bp = skfem.CellBasis(mp, rec.make())
+    ctx.check("spellings-agree", set(bp.get_dofs("predtag").flatten().tolist()) == want, mech="tag-defined-by-predicate:facets", **tag)
+    ctx.check("spellings-agree", set(bp.get_dofs(elements="predsub").flatten().tolist()) == wantE,
+              mech="tag-defined-by-predicate:elements", **tag)
+    mb = mesh.with_boundaries({"predbnd": pred})          # default boundaries_only=True: selected AND on the boundary
+    Fb = np.array([f for f in F if f2t[1, int(f)] == -1], dtype=np.int64)
+    ctx.check("spellings-agree", set(skfem.CellBasis(mb, rec.make()).get_dofs("predbnd").flatten().tolist()) == closure_facets(Fb),
+              mech="tag-defined-by-predicate:boundaries-only", **tag)
+    ob = mesh.facets_around(E.astype(np.int32))
+    ctx.check("spellings-agree", set(basis.get_dofs(ob).flatten().tolist()) == closure_facets(np.unique(np.asarray(ob))),
+              mech="oriented-boundary-as-selector", nfacets=int(np.asarray(ob).size), **tag)
+    ctx.reached("predicate-tags-and-oriented-selector")
+    # unions of views of different selector kinds
+    with warnings.catch_warnings():
+        warnings.simplefilter("ignore")
+        for nm, un, ref_ in (("facets|elements", got | gotE, want | wantE), ("elements|facets", gotE | got, want | wantE),
+                             ("elements|nodes", gotE | gotV, wantE | wantV), ("nodes+facets", gotV + got, wantV | want)):
+            ctx.check("spellings-agree", set(un.flatten().tolist()) == ref_, mech=f"view-union-mixed:{nm}", **tag)
 
     # ---- (3) names
     names = true_names(mesh, elem, kind, dim, layout)
